@@ -144,3 +144,47 @@ def oracle(c):
         if fails:
             break
     return fails
+
+
+# The data-cache TABLE is part of the model (`Model/CacheViews.lean`): what `get_data_cache_entries()` shows is compared with the
+# model after every snapshot of the whole-program suite, and judged on the real objects: every cell of a valid block shows the
+# address base + 4j and the value a load from that address returns now.
+_cases_plain = cases
+
+
+def cases(rng, tier):
+    for c in _cases_plain(rng, tier):
+        if c.suite == "sim-dcache-prog":
+            c.lines = [x for l in c.lines for x in ((l, "sim.dcachetable") if l == "sim.snap" else (l,))]
+        yield c
+
+
+_oracle_plain = oracle
+
+
+def oracle(c):
+    f_ = _oracle_plain(c)
+    if f_ or c.suite != "sim-dcache-prog":
+        return f_
+    im = implmod.Impl()
+    for l in c.lines:
+        o = im.run(l)
+        if o.startswith("F") or o.startswith("X") or " F " in o or " X " in o:
+            return f_
+        if l != "sim.dcachetable":
+            continue
+        tab = im.sim.get_data_cache_entries()
+        if tab is None:
+            return f_
+        for s_ in tab.sets:
+            for b in s_.blocks:
+                if str(b.valid_bit) != "1":
+                    continue
+                addrs = [int(a, 16) for a, _ in b.address_value_list]
+                if any(y - x != 4 for x, y in zip(addrs, addrs[1:])):
+                    return [Failure("oracle", PROP, f"data-cache table: the cells of one block show the addresses {[hex(a) for a in addrs]}", "cache-table:addresses")]
+                for a, v in b.address_value_list:
+                    now = int(im.sim.state.memory.read_word(int(a, 16), update_statistics=False))
+                    if int(v) != now:
+                        return [Failure("oracle", PROP, f"data-cache table shows {v} at 0x{a}; a load from that address returns {now}", "cache-table:stale")]
+    return f_
